@@ -878,6 +878,17 @@ def decl_program():
             ],
         ),
         fn(
+            # reads a global that is defined and bound to None (and one that holds a number)
+            "u4",
+            ["p"],
+            [
+                ["ann", "y", '"@A"', V],
+                use("GN", "y"),
+                ["bind", "z", ["add", var("y"), var("G0")]],
+                ["ret", ["tup", [var("z"), var("GN")]]],
+            ],
+        ),
+        fn(
             "u2",
             ["p"],
             [
@@ -933,6 +944,16 @@ def genctx_program():
             [
                 ["bind", "x", V],
                 ["while", [["try", [["yield", var("x"), None]], [["Exception", None, [["pt"]]]], [], []]]],
+                ["bind", "r", ["call", "g", [V]]],
+            ],
+        ),
+        fn(
+            # coroutine style: suspends at a bare yield (it hands nothing out)
+            "gen5",
+            ["p"],
+            [
+                ["bind", "x", V],
+                ["while", [["yield", None, "item"], ["bind", "r", ["call", "g", [V]]]]],
                 ["bind", "r", ["call", "g", [V]]],
             ],
         ),
